@@ -55,21 +55,22 @@ const (
 
 // replayRec is the detail of a violation and the input of --replay.
 type replayRec struct {
-	Part    string    `json:"part"`
-	Name    string    `json:"name,omitempty"`
-	Macros  []string  `json:"macros,omitempty"`
-	Script  string    `json:"script_hex"`
-	Cfg     cfg       `json:"cfg"`
-	Correct bool      `json:"passes_IsScriptCorrect"`
-	Finding *finding  `json:"finding"`
-	State   string    `json:"final_state"`
-	Steps   int       `json:"steps"`
-	Gas     int64     `json:"gas_consumed_datoshi"`
-	OwnPico int64     `json:"executed_prices_picogas"`
-	Err     string    `json:"vm_error,omitempty"`
-	Disasm  string    `json:"disasm,omitempty"`
-	Handler bool      `json:"harness_syscall_handler,omitempty"`
-	Loaded  []loadRec `json:"loadable_scripts,omitempty"` // xscript part: what the harness's SYSCALL handler loads (index = low byte of the syscall id)
+	Part    string      `json:"part"`
+	Name    string      `json:"name,omitempty"`
+	Macros  []string    `json:"macros,omitempty"`
+	Script  string      `json:"script_hex"`
+	Cfg     cfg         `json:"cfg"`
+	Correct bool        `json:"passes_IsScriptCorrect"`
+	Finding *finding    `json:"finding"`
+	State   string      `json:"final_state"`
+	Steps   int         `json:"steps"`
+	Gas     int64       `json:"gas_consumed_datoshi"`
+	OwnPico int64       `json:"executed_prices_picogas"`
+	Err     string      `json:"vm_error,omitempty"`
+	Disasm  string      `json:"disasm,omitempty"`
+	Handler bool        `json:"harness_syscall_handler,omitempty"`
+	Loaded  []loadRec   `json:"loadable_scripts,omitempty"` // xscript part: what the harness's SYSCALL handler loads (index = low byte of the syscall id)
+	Sys     *sysLiteral `json:"syscalls_case,omitempty"`    // syscalls part: the case as a worker subprocess runs it
 }
 
 type loadRec struct {
@@ -508,6 +509,12 @@ func rawPart(s *stats, from, to int) (scripts int64) {
 
 func TestCheck(t *testing.T) {
 	vk.UseT(t)
+	if os.Getenv(sysEnvVar) != "" || os.Getenv(sysCaseVar) != "" { // a worker subprocess of the syscalls part
+		if code := sysWorkerMain(); code != 0 {
+			os.Exit(code)
+		}
+		return
+	}
 	r := vk.Start("C12", "model_checking", 150*time.Second, 24*time.Minute)
 	r.SetSampleCap(16)
 	s := newStats(r)
@@ -524,6 +531,15 @@ func TestCheck(t *testing.T) {
 		budget = time.Duration(b) * time.Second
 	}
 	must := &sched{r: r}
+
+	if os.Getenv("VERIF_C12_ONLY") == "syscalls" { // development aid: this part alone (never exhaustive)
+		sy := syscallsPart(s)
+		fmt.Printf("C12 %s: syscalls %d cases %v in %d worker processes (%d restarts, %d process deaths): %d interops/native methods, %d outcome classes %v, under limits %v, goroutines left %d, cpu %.1fs wall %.1fs\n",
+			r.Tier, sy.cases, sy.fams, sy.workers, sy.restarts, sy.deaths, sy.targets, sy.classes, sy.famClasses, sy.limStates, sy.gorLeft, sy.cpu.Seconds(), sy.wall)
+		r.Capped()
+		more := s.flush()
+		r.Finish(map[string]any{"failing_inputs_per_class": more, "states": len(s.tot.sigs) + 1, "transitions": int(s.tot.steps) + 1, "traces_validated_against_impl": int(s.tot.execs) + 1, "outcomes": s.outcomeMap()}, nil)
+	}
 
 	// Mandatory passes; what the quick tier does comes first, so a thorough run
 	// that hits its deadline on a busy machine still contains the quick one.
@@ -555,6 +571,8 @@ func TestCheck(t *testing.T) {
 	nRaw := rawPart(s, 0, 2)
 	tRaw := time.Since(t0).Seconds()
 
+	sy := syscallsPart(s)
+
 	t0 = time.Now()
 	d := deepPart(s, must, depth, alphabetMask(nil), true)
 	tDeep := time.Since(t0).Seconds()
@@ -571,6 +589,8 @@ func TestCheck(t *testing.T) {
 	fmt.Printf("C12 %s: xscript %d callers x %d callees (+specials) = %d programs %.1fs | opmatrix %d programs %.1fs\n", r.Tier, xo.callers, xo.callees, xo.programs, tX, nMatrix, tMatrix)
 	fmt.Printf("C12 %s: xfer %d variants x %d layouts = %d programs (%d accepted by the static check, %d of them with a target inside an instruction, %d distinct outcomes) + xptr %d programs %.1fs | gasedge %d programs %.1fs | trunc %d programs (%d complete) %.1fs\n",
 		r.Tier, xf.variants, xf.layouts/xf.variants, xf.programs, xf.accepted, xf.acceptedBad, xf.outcomes, xf.xptrPrograms, tXfer, ge.programs, tGas, nTrunc, truncDecodable, tTrunc)
+	fmt.Printf("C12 %s: syscalls %d cases %v in %d worker processes (%d restarts, %d process deaths): %d interops/native methods, %d outcome classes %v, under limits %v, cpu %.1fs wall %.1fs\n",
+		r.Tier, sy.cases, sy.fams, sy.workers, sy.restarts, sy.deaths, sy.targets, sy.classes, sy.famClasses, sy.limStates, sy.cpu.Seconds(), sy.wall)
 	fmt.Printf("C12 %s: limits %d programs %.1fs | raw len<=%d %d scripts %.1fs | deep L=%d levels=%v states=%d programs=%d %.1fs | core L=%d levels=%v states=%d programs=%d %.1fs | execs=%d steps=%d\n",
 		r.Tier, nLimit, tLimits, rawLen, nRaw, tRaw, depth, d.levelSizes, d.states, d.programs, tDeep, coreDepth, dc.levelSizes, dc.states, dc.programs, tCore, s.tot.execs, s.tot.steps)
 
@@ -628,6 +648,19 @@ func TestCheck(t *testing.T) {
 		"xfer_method_offset_scripts":                      xf.methodScripts,
 		"xptr_programs":                                   xf.xptrPrograms,
 		"xfer_wall_s":                                     tXfer,
+		"syscalls_cases":                                  sy.cases,
+		"syscalls_cases_by_family":                        sy.fams,
+		"syscalls_outcome_classes_by_family":              sy.famClasses,
+		"syscalls_outcome_classes":                        sy.classes,
+		"syscalls_interops_and_native_methods":            sy.targets,
+		"syscalls_states_under_finite_limits":             sy.limStates,
+		"syscalls_scripts_passing_static_check":           sy.static,
+		"syscalls_worker_processes":                       sy.workers,
+		"syscalls_worker_restarts":                        sy.restarts,
+		"syscalls_process_deaths":                         sy.deaths,
+		"syscalls_goroutines_left_after_wait":             sy.gorLeft,
+		"syscalls_cpu_s":                                  sy.cpu.Seconds(),
+		"syscalls_wall_s":                                 sy.wall,
 		"gasedge_programs":                                ge.programs,
 		"gasedge_price_configurations":                    ge.configs,
 		"gasedge_unlimited_halt_fault":                    []int64{ge.halts, ge.faults},
@@ -682,6 +715,8 @@ func TestCheck(t *testing.T) {
 		"unexported state read by the harness: Context.tryStack (length only); rc.count of compounds is read for state merging only, never asserted",
 		"deep passes: at most 3 open try blocks per call frame and 6 open brackets (calls + try blocks) at a time; indices/keys 0 and 1; THROW only where the nearest handler is a catch block (a pending exception inside finally is covered by the THROW_VIA_FINALLY macro and by the limit programs)",
 		"one violation per class of finding (what : instruction[operand kinds]), carrying the smallest failing input; failing_inputs_per_class counts the rest",
+		"syscalls part: scripts run as the code of a helper contract deployed on two single-validator test ledgers (every hardfork from genesis / none) inside the interop.Context of Blockchain.GetTestVM (Application trigger, a container transaction signed by account 1, the validator and the committee with Global scope, all call flags), one fresh context per run; every case runs in a worker subprocess that announces it first and reports it only after the goroutines it started are gone (3 s at most, leftovers are counted); a worker death or a silence of 45 s is attributed to the announced case, re-run alone and, if it does not die alone, bisected over the cases of its slice; a slice (every 16th case) is given up at its first death",
+		"syscalls part: instruction boundaries and harness-side prices are asserted for the case's own script only (identified by the identity of its byte slice), not for native contracts' or dynamically loaded scripts; the harness-side consumption is a lower bound (opcode prices + the interop table's price of each SYSCALL), the handlers' own charges are the VM's",
 	})
 }
 
@@ -690,6 +725,10 @@ func replay(r *vk.Run, s *stats) {
 	if err := r.ReadReplay(&c); err != nil {
 		fmt.Println("cannot read replay:", err)
 		r.Finish(map[string]any{"states": 1, "transitions": 1, "traces_validated_against_impl": 0}, nil)
+	}
+	if c.Part == "syscalls" && c.Sys != nil {
+		replaySys(r, s, &c)
+		return
 	}
 	script, err := hex.DecodeString(c.Script)
 	if err != nil {
